@@ -1258,10 +1258,21 @@ func genOps(t *rapid.T, kind string) *Case {
 	}
 	fresh := func(t *rapid.T) {
 		a := OpsAction{Op: "add", Val: uint64(rapid.IntRange(0, 4).Draw(t, "val")), Epoch: uint64(rapid.IntRange(0, 2).Draw(t, "epoch")), Variant: rapid.IntRange(0, 1).Draw(t, "variant")}
+		// validator indices are 64-bit and legal up to VALIDATOR_REGISTRY_LIMIT = 2^40: the same low bits under
+		// different high parts are different validators
+		hi := rapid.SampledFrom([]uint64{0, 0, 0, 0, 1, 1, 3, 127}).Draw(t, "val_hi") << 32
+		a.Val |= hi
 		if kind == "attslash" {
 			a.Val = 0
 			a.Idx1 = subsetOf(t, 6, "idx1")
 			a.Idx2 = subsetOf(t, 6, "idx2")
+			for _, l := range [][]uint64{a.Idx1, a.Idx2} {
+				for k := range l {
+					if l[k] >= 3 { // the tail of the (sorted) index list
+						l[k] |= hi
+					}
+				}
+			}
 		}
 		push(a)
 	}
@@ -1290,6 +1301,23 @@ func genOps(t *rapid.T, kind string) *Case {
 	all := func(t *rapid.T) { push(OpsAction{Op: "all"}) }
 	t.Repeat(map[string]func(*rapid.T){"fresh-1": fresh, "fresh-2": fresh, "related-1": related, "related-2": related, "all": all})
 	return &Case{Pool: kind, Ops: c}
+}
+
+// sameLowBitsOtherValidator: two adds for validators whose indices agree in the low 32 bits only
+func sameLowBitsOtherValidator(c *OpsCase) bool {
+	seen := map[uint32]uint64{}
+	for _, a := range c.Actions {
+		if a.Op != "add" {
+			continue
+		}
+		for _, v := range append(append([]uint64{a.Val}, a.Idx1...), a.Idx2...) {
+			if w, ok := seen[uint32(v)]; ok && w != v {
+				return true
+			}
+			seen[uint32(v)] = v
+		}
+	}
+	return false
 }
 
 func subsetOf(t *rapid.T, n int, label string) []uint64 {
@@ -1522,7 +1550,7 @@ func TestCheck(t *testing.T) {
 	if r.Replay != "" {
 		return
 	}
-	r.Mandatory("att:search-result-held-across-a-later-nonempty-search", "pool:att", "pool:exit", "pool:propslash", "pool:attslash", "pool:sync", "pool:select",
+	r.Mandatory("ops:two-validators-equal-modulo-2^32", "att:search-result-held-across-a-later-nonempty-search", "pool:att", "pool:exit", "pool:propslash", "pool:attslash", "pool:sync", "pool:select",
 		"att:mixed-singles-aggregates+prune-after-conflict", "att:bitlen-mismatch", "att:search-every-filter-combination", "att:readd-after-prune",
 		"pool:bits", "bits:single:one", "bits:single:none", "bits:single:several", "bits:single:committee-mismatch", "bits:covers:length-mismatch", "bits:covers:strict-superset", "bits:covers:not-covered", "bits:or", "bits:bitvector",
 		"ops:duplicate+conflict", "sync:add-before-first-reset", "sync:reset-forward+backward+same+jump", "select:member-without-message")
@@ -1564,6 +1592,9 @@ func TestCheck(t *testing.T) {
 			if ft.has("dup", "conflict", "all>=2") {
 				nontrivial = true
 				r.Hit("ops:duplicate+conflict")
+			}
+			if sameLowBitsOtherValidator(c.Ops) {
+				r.Hit("ops:two-validators-equal-modulo-2^32")
 			}
 			for _, k := range []string{"dup", "conflict-stored", "conflict-refused", "all>=2"} {
 				if ft.has(k) {
